@@ -33,6 +33,13 @@ theorem ORel_bind {α β : Type} {R : α → α → Prop} {S : β → β → Pro
   · subst hx; exact rfl
   · trivial
 
+theorem ORel_bind' {α β : Type} {R : α → α → Prop} {S : β → β → Prop} {x x' : Outcome α} {k k' : α → Outcome β}
+    (hx : ORel R x x') (hk : ∀ a a', x = .ok a → x' = .ok a' → R a a' → ORel S (k a) (k' a')) : ORel S (x >>= k) (x' >>= k') := by
+  cases x <;> cases x' <;> simp only [ORel] at hx
+  · exact hk _ _ rfl rfl hx
+  · subst hx; exact rfl
+  · trivial
+
 theorem ORel_ok {α : Type} {R : α → α → Prop} {a b : α} (h : R a b) : ORel R (Outcome.ok a) (Outcome.ok b) := h
 theorem ORel_pure {α : Type} {R : α → α → Prop} {a b : α} (h : R a b) : ORel R (pure a : Outcome α) (pure b) := h
 theorem ORel_crash {α : Type} {R : α → α → Prop} (c : Crash) : ORel R (Outcome.crash c) (Outcome.crash c) := rfl
@@ -449,5 +456,241 @@ theorem nonors_sim : ∀ f : Nat,
             split
             · exact ORel_pure ⟨SimL_append hd ⟨hx1, h.2⟩, rfl⟩
             · exact ih3 _ _ l l' x2 (SimL_append hd ⟨hx1, trivial⟩) h.2
+
+
+/-- result relation of the loop of `OrList::matchORs` -/
+def RO (r r' : List ST × Ents × MT × MT × Int × Int × Nat) : Prop :=
+  SimL r.1 r'.1 ∧ r.2.1 = r'.2.1 ∧ r.2.2.1 = r'.2.2.1 ∧ r.2.2.2.1 = r'.2.2.2.1 ∧ r.2.2.2.2.1 = r'.2.2.2.2.1 ∧
+    r.2.2.2.2.2.2 = r'.2.2.2.2.2.2 ∧
+    (r.2.2.2.2.2.1 = r'.2.2.2.2.2.1 ∨ (r.2.2.2.2.1 = -1 ∧ r.2.2.2.1.rank < MT.rank .some_))
+
+theorem pure_bind'' {α β : Type} (a : α) (k : α → Outcome β) : ((pure a : Outcome α) >>= k) = k a := rfl
+
+theorem ors_sim : ∀ f : Nat,
+    (∀ t t' es, Sim t t' → ORel R3 (matchORs f t es) (matchORs f t' es)) ∧
+    (∀ isAnd done done' cs cs' es, SimL done done' → SimL cs cs' →
+      ORel R3L (joinORs f isAnd done cs es) (joinORs f isAnd done' cs' es)) ∧
+    (∀ idx done done' cs cs' es rv v c c1 c1' k, SimL done done' → SimL cs cs' →
+      (c1 = c1' ∨ (c = -1 ∧ v.rank < MT.rank .some_)) →
+      ORel RO (orORs f idx done cs es rv v c c1 k) (orORs f idx done' cs' es rv v c c1' k)) := by
+  intro f
+  induction f with
+  | zero =>
+    exact ⟨fun _ _ _ _ => by simp [matchORs, ORel], fun _ _ _ _ _ _ _ _ => by simp [joinORs, ORel],
+      fun _ _ _ _ _ _ _ _ _ _ _ _ _ _ _ => by simp [orORs, ORel]⟩
+  | succ f ih =>
+    obtain ⟨ih1, ih2, ih3⟩ := ih
+    refine ⟨?_, ?_, ?_⟩
+    · intro t t' es h
+      rcases Sim_cases h with ⟨n, v, im, rfl, rfl⟩ | ⟨v, c, c1, c1', k, cs, cs', rfl, rfl, hs, hc⟩ |
+        ⟨v, c, c1, k, c', c1', k', cs, cs', rfl, rfl, hs⟩ | ⟨v, c, c1, k, c', c1', k', cs, cs', rfl, rfl, hs⟩
+      · exact ORel_same (fun a => ⟨Sim_refl _, rfl⟩) _
+      · simp only [matchORs]
+        refine ORel_bind (ih3 0 [] [] cs cs' es .unknown v c c1 c1' k trivial hs hc) (fun a a' haa => ?_)
+        obtain ⟨a1, a2, a3, a4, a5, a6, a7⟩ := a
+        obtain ⟨b1, b2, b3, b4, b5, b6, b7⟩ := a'
+        obtain ⟨h1, h2, h3, h4, h5, h6, h7⟩ := haa
+        simp only at h1 h2 h3 h4 h5 h6 h7
+        subst h2 h3 h4 h5 h6
+        simp only
+        have hnode : Sim (ST.mult .or a4 a5 a6 a7 a1) (ST.mult .or a4 a5 b6 a7 b1) := ⟨rfl, rfl, rfl, h1, h7⟩
+        by_cases hrk : MT.rank .some_ ≤ a4.rank
+        · simp only [hrk, if_true]
+          have hfix : TopFixed (ST.mult .or a4 a5 a6 a7 a1) (ST.mult .or a4 a5 b6 a7 b1) :=
+            TopFixed_of_als hnode (by simp [ST.atLeastSome, ST.viable, hrk])
+          have hdrop : ORel R2 (acceptDrop f (ST.mult .or a4 a5 a6 a7 a1) a2) (acceptDrop f (ST.mult .or a4 a5 b6 a7 b1) a2) := by
+            unfold acceptDrop
+            refine ORel_bind ((accept_sim f).1 _ _ a2 hnode hfix) (fun x x' hx => ?_)
+            obtain ⟨x1, x2, x3⟩ := x
+            obtain ⟨y1, y2, y3⟩ := x'
+            obtain ⟨hx1, hx2⟩ := hx
+            simp only at hx1 hx2
+            cases hx2
+            exact ORel_pure ⟨hx1, rfl⟩
+          refine ORel_bind' hdrop (fun x x' hxe _ hx => ?_)
+          obtain ⟨x1, x2⟩ := x
+          obtain ⟨y1, y2⟩ := x'
+          obtain ⟨hx1, hx2⟩ := hx
+          simp only at hx1 hx2
+          cases hx2
+          have hsk : skel x1 = skel (ST.mult .or a4 a5 a6 a7 a1) := by
+            unfold acceptDrop at hxe
+            obtain ⟨⟨n', e', b⟩, q1, q2⟩ := bind_ok' hxe
+            cases q2
+            exact (accept_skel f).1 _ a2 _ q1
+          simp only
+          split
+          · rename_i hall
+            -- the accepted node is an OrList with `viable = MATCHALL`: its `choice1` is not free
+            rcases Sim_cases hx1 with ⟨n, v, im, rfl, rfl⟩ | ⟨v2, c2, d1, d1', k2, es1, es1', rfl, rfl, hs2, hc2⟩ |
+              ⟨v2, c2, d1, k2, c2', d1', k2', es1, es1', rfl, rfl, hs2⟩ | ⟨v2, c2, d1, k2, c2', d1', k2', es1, es1', rfl, rfl, hs2⟩
+            · exact ORel_crash _
+            · have hv2 : v2 = a4 := by simp only [skel] at hsk; injection hsk
+              have hd : d1 = d1' := by
+                rcases hc2 with e | e
+                · exact e
+                · rw [hv2, hall] at e; simp [MT.rank] at e
+              subst hd
+              simp only [SimL_length hs2]
+              split
+              · exact ORel_crash _
+              · rename_i i _
+                rcases SimL_get i hs2 with e | ⟨u, w, e1, e2, e3⟩
+                · rw [e.1, e.2]; exact ORel_crash _
+                · rw [e1, e2]; simp only [Sim_viable e3]
+                  exact ORel_pure ⟨⟨rfl, rfl, rfl, hs2, Or.inl rfl⟩, rfl⟩
+            · simp [skel] at hsk
+            · simp [skel] at hsk
+          · exact ORel_pure ⟨hx1, rfl⟩
+        · simp only [hrk, if_false]
+          have hnall : a4 ≠ .all := by
+            intro e; rw [e] at hrk; exact hrk (by decide)
+          simp only [hnall, if_false]
+          exact ORel_pure ⟨hnode, rfl⟩
+      · simp only [matchORs, SimL_isEmpty hs]
+        split
+        · exact ORel_crash _
+        · refine ORel_bind (ih2 true [] [] cs cs' es trivial hs) (fun a a' haa => ?_)
+          obtain ⟨a1, a2, a3⟩ := a
+          obtain ⟨b1, b2, b3⟩ := a'
+          obtain ⟨h1, h2⟩ := haa
+          simp only at h1 h2
+          cases h2
+          simp only
+          split
+          · exact ORel_pure ⟨⟨rfl, h1⟩, rfl⟩
+          · rw [setViableVal_sim a2 h1]; exact ORel_pure ⟨⟨rfl, h1⟩, rfl⟩
+      · simp only [matchORs, SimL_isEmpty hs]
+        split
+        · exact ORel_crash _
+        · refine ORel_bind (ih2 false [] [] cs cs' es trivial hs) (fun a a' haa => ?_)
+          obtain ⟨a1, a2, a3⟩ := a
+          obtain ⟨b1, b2, b3⟩ := a'
+          obtain ⟨h1, h2⟩ := haa
+          simp only at h1 h2
+          cases h2
+          simp only
+          rw [setViableVal_sim a2 h1]; exact ORel_pure ⟨⟨rfl, h1⟩, rfl⟩
+    -- ---------------------------------------------------------- joinORs
+    · intro isAnd done done' cs cs' es hd h
+      cases cs with
+      | nil => cases cs' with
+        | nil => simp only [joinORs]; exact ORel_ok ⟨hd, rfl⟩
+        | cons => simp [SimL] at h
+      | cons a l => cases cs' with
+        | nil => simp [SimL] at h
+        | cons b l' =>
+          simp only [joinORs, Sim_viable h.1, Sim_isSimple h.1]
+          split
+          · split
+            · exact ORel_crash _
+            · refine ORel_bind (ih1 a b es h.1) (fun x x' hx => ?_)
+              obtain ⟨x1, x2, x3⟩ := x
+              obtain ⟨y1, y2, y3⟩ := x'
+              obtain ⟨hx1, hx2⟩ := hx
+              simp only at hx1 hx2
+              cases hx2
+              simp only
+              split
+              · split
+                · exact ORel_pure ⟨SimL_append hd ⟨hx1, h.2⟩, rfl⟩
+                · refine ORel_bind ((unmark_sim f).1 x1 y1 x2 hx1) (fun u u' hu => ?_)
+                  obtain ⟨u1, u2⟩ := u
+                  obtain ⟨w1, w2⟩ := u'
+                  obtain ⟨hu1, hu2⟩ := hu
+                  simp only at hu1 hu2
+                  cases hu2
+                  exact ih2 isAnd _ _ l l' u2 (SimL_append hd ⟨hu1, trivial⟩) h.2
+              · exact ih2 isAnd _ _ l l' x2 (SimL_append hd ⟨hx1, trivial⟩) h.2
+          · exact ih2 isAnd _ _ l l' es (SimL_append hd ⟨h.1, trivial⟩) h.2
+    -- ---------------------------------------------------------- orORs
+    · intro idx done done' cs cs' es rv v c c1 c1' k hd h hc
+      cases cs with
+      | nil => cases cs' with
+        | nil => simp only [orORs]; exact ORel_ok ⟨hd, rfl, rfl, rfl, rfl, rfl, hc⟩
+        | cons => simp [SimL] at h
+      | cons a l => cases cs' with
+        | nil => simp [SimL] at h
+        | cons b l' =>
+          simp only [orORs, Sim_isOr h.1]
+          -- after the first step
+          have step3 : ∀ (y y' : ST × Ents × MT), R3 y y' →
+              ORel RO
+                (unmarkAll f y.1 y.2.1 >>= fun z =>
+                  orORs f (idx + 1) (done ++ [z.1]) l z.2 y.2.2 (if v.rank < y.2.2.rank then y.2.2 else v)
+                    (if (decide (MT.rank .some_ ≤ y.2.2.rank) && decide (c = -1)) = true then (idx : Int) else c)
+                    (if (decide (MT.rank .some_ ≤ y.2.2.rank) && decide (c = -1)) = true then (idx : Int) else c1)
+                    (if decide (MT.rank .some_ ≤ y.2.2.rank) = true then k + 1 else k))
+                (unmarkAll f y'.1 y'.2.1 >>= fun z =>
+                  orORs f (idx + 1) (done' ++ [z.1]) l' z.2 y'.2.2 (if v.rank < y'.2.2.rank then y'.2.2 else v)
+                    (if (decide (MT.rank .some_ ≤ y'.2.2.rank) && decide (c = -1)) = true then (idx : Int) else c)
+                    (if (decide (MT.rank .some_ ≤ y'.2.2.rank) && decide (c = -1)) = true then (idx : Int) else c1')
+                    (if decide (MT.rank .some_ ≤ y'.2.2.rank) = true then k + 1 else k)) := by
+            intro y y' hy
+            obtain ⟨y1, y2, y3⟩ := y
+            obtain ⟨w1, w2, w3⟩ := y'
+            obtain ⟨hy1, hy2⟩ := hy
+            simp only at hy1 hy2
+            cases hy2
+            refine ORel_bind ((unmark_sim f).1 y1 w1 y2 hy1) (fun z z' hz => ?_)
+            obtain ⟨z1, z2⟩ := z
+            obtain ⟨u1, u2⟩ := z'
+            obtain ⟨hz1, hz2⟩ := hz
+            simp only at hz1 hz2
+            cases hz2
+            refine ih3 (idx + 1) _ _ l l' z2 y3 _ _ _ _ _ (SimL_append hd ⟨hz1, trivial⟩) h.2 ?_
+            by_cases hs : MT.rank .some_ ≤ y3.rank
+            · by_cases hcm : c = -1
+              · left; simp [hs, hcm]
+              · simp only [hs, hcm, decide_true, decide_false, Bool.and_false, Bool.false_eq_true, if_false]
+                rcases hc with e | e
+                · exact Or.inl e
+                · exact absurd e.1 hcm
+            · simp only [hs, decide_false, Bool.false_and, Bool.false_eq_true, if_false]
+              rcases hc with e | e
+              · exact Or.inl e
+              · right
+                refine ⟨e.1, ?_⟩
+                split
+                · omega
+                · exact e.2
+          have step2 : ∀ (x x' : ST × Ents × MT), R3 x x' →
+              ORel R3 (if x.1.viable = .unknown then (if x.1.isSimple = true then Outcome.crash .castSimple else matchORs f x.1 x.2.1)
+                  else pure (x.1, x.2.1, x.2.2))
+                (if x'.1.viable = .unknown then (if x'.1.isSimple = true then Outcome.crash .castSimple else matchORs f x'.1 x'.2.1)
+                  else pure (x'.1, x'.2.1, x'.2.2)) := by
+            intro x x' hx
+            obtain ⟨x1, x2, x3⟩ := x
+            obtain ⟨w1, w2, w3⟩ := x'
+            obtain ⟨hx1, hx2⟩ := hx
+            simp only at hx1 hx2
+            cases hx2
+            simp only [Sim_viable hx1, Sim_isSimple hx1]
+            split
+            · split
+              · exact ORel_crash _
+              · exact ih1 x1 w1 x2 hx1
+            · exact ORel_pure ⟨hx1, rfl⟩
+          have cont : ∀ (x x' : ST × Ents × MT), R3 x x' → ∀ (o o' : Outcome (List ST × Ents × MT × MT × Int × Int × Nat)),
+              o = ((if x.1.viable = .unknown then (if x.1.isSimple = true then Outcome.crash .castSimple else matchORs f x.1 x.2.1)
+                  else pure (x.1, x.2.1, x.2.2)) >>= fun y => unmarkAll f y.1 y.2.1 >>= fun z =>
+                  orORs f (idx + 1) (done ++ [z.1]) l z.2 y.2.2 (if v.rank < y.2.2.rank then y.2.2 else v)
+                    (if (decide (MT.rank .some_ ≤ y.2.2.rank) && decide (c = -1)) = true then (idx : Int) else c)
+                    (if (decide (MT.rank .some_ ≤ y.2.2.rank) && decide (c = -1)) = true then (idx : Int) else c1)
+                    (if decide (MT.rank .some_ ≤ y.2.2.rank) = true then k + 1 else k)) →
+              o' = ((if x'.1.viable = .unknown then (if x'.1.isSimple = true then Outcome.crash .castSimple else matchORs f x'.1 x'.2.1)
+                  else pure (x'.1, x'.2.1, x'.2.2)) >>= fun y => unmarkAll f y.1 y.2.1 >>= fun z =>
+                  orORs f (idx + 1) (done' ++ [z.1]) l' z.2 y.2.2 (if v.rank < y.2.2.rank then y.2.2 else v)
+                    (if (decide (MT.rank .some_ ≤ y.2.2.rank) && decide (c = -1)) = true then (idx : Int) else c)
+                    (if (decide (MT.rank .some_ ≤ y.2.2.rank) && decide (c = -1)) = true then (idx : Int) else c1')
+                    (if decide (MT.rank .some_ ≤ y.2.2.rank) = true then k + 1 else k)) →
+              ORel RO o o' := by
+            intro x x' hx o o' ho ho'
+            rw [ho, ho']
+            exact ORel_bind (step2 x x' hx) step3
+          split
+          · refine ORel_bind ((nonors_sim f).1 a b es h.1) (fun x x' hx => ?_)
+            refine cont x x' hx _ _ ?_ ?_ <;> (split <;> rfl)
+          · refine cont (a, es, rv) (b, es, rv) ⟨h.1, rfl⟩ _ _ ?_ ?_ <;> (simp only [pure_bind'']; split <;> rfl)
 
 end StepModel.Complex.Match
